@@ -17,14 +17,14 @@ PROPS = {
         explanation='Write side: every serialiser emits exactly ser(x) (Verus, verbatim bodies, any sink). Read side: Header::parse / parse_header (including the real per-type decode loop, desugared to an index loop) / parse_signature / PackageMetadata::parse / Package::parse consume exactly the serialised length and return a value whose serialisation equals the consumed bytes with the reserved intro bytes and signature padding zeroed (meta_parsed), unbounded in entry count, store size and payload; fixed-size leaves (intro, index entry, lead) are complete Kani proofs over all 16/96-byte inputs.',
     ),
     'C02': dict(
-        level='proof', verus=['c02_verify_sig', 'c03_digests'],
+        level='proof', verus=['c02_verify_sig', 'c03_digests', 'c14_writers'],
         trusted_base=[A_TOOLS, A_EXTRACT, 'A-PGP: a Verifying implementation is a function of the bytes and the signature it is shown (`accepts` uninterpreted); base64 decoding is a total function into Option; the pgp crate verifier and its key/subkey selection (signature/pgp.rs) are NOT under contract',
                       'A-HASH (via C03), A-LEAF-LINK: getters = K:k_getters_*, Header::write = unit c14_writers, verify_digests = unit c03_digests'],
         assumptions=['second sentence of C02 (any parsed-value-changing modification of a signed package is rejected) is a corollary only under A-PGP soundness and SHA-256 collision freedom: stated, not proved'],
         explanation='Verbatim body of Package::verify_signature: Ok ==> digests_ok and (OpenPGP array present ==> at least one signature and every one of them base64-decodes and is accepted over exactly ser(header)) and (otherwise ==> at least one of RSA/DSA/PGP present, each present one accepted over ser(header), resp. ser(header)++payload for the legacy tag); every signature-header shape and every accept/reject pattern at once.',
     ),
     'C03': dict(
-        level='proof', verus=['c03_digests'],
+        level='proof', verus=['c03_digests', 'c14_writers'],
         trusted_base=[A_TOOLS, A_EXTRACT, 'A-HASH: md5 / sha1 / sha2 / hex compute MD5 / SHA-1 / SHA-256 / lower-case hex; modelled as uninterpreted functions (hex injective)',
                       'A-LEAF-LINK: getter contracts (prelude/getters.rs) are the assertions of K:k_getters_*; DigestAlgorithm::from_u32 map is K:k_digest_algo; Header::write contract is proved in unit c14_writers'],
         assumptions=['R11: != between &[u8]/Vec<u8>/&str/String is content inequality (std PartialEq)',
@@ -53,7 +53,7 @@ PROPS = {
         explanation='Verbatim bodies: FileIterator::next pairs the content with the header file entry the archive entry NAMES (index returned by Reader::file_entry_index), never by position; Reader::new bounds the name buffer, bounds-checks the stripped file index and sizes the entry from the cpio header resp. the header file entry; pad(len) is (4 - len mod 4) mod 4 NUL bytes; Reader::read never hands out more than file_size - bytes_read, accounts exactly what it handed out and cannot overflow; Reader::finish consumes the rest of the entry plus its padding; Writer::write accepts data only while it fits the announced size and emits the header first; header + full body + finish yields hdr ++ body ++ NUL padding with 4-byte alignment.',
     ),
     'C08': dict(
-        level='proof', verus=['c10_sign'],
+        level='proof', verus=['c10_sign', 'c14_writers'],
         trusted_base=[A_TOOLS, A_EXTRACT, 'A-HASH: sha2 / hex compute SHA-256 / lower-case hex (uninterpreted)',
                       'A-LEAF-LINK: Header::write contract proved in unit c14_writers',
                       'axiom_built_sig_digest: SignatureHeaderBuilder::build stores the digest under RPMSIGTAG_SHA256 as a string (build itself uses from_entries and the pgp packet parser and is not under a Verus contract; checked bounded by K:k_sighdr_digest where it finishes)'],
@@ -61,7 +61,7 @@ PROPS = {
         explanation='Sha256Writer::write (verbatim, any inner sink): the hasher absorbs exactly the bytes the inner writer accepted (Ok(n): buf[..n]; Err: nothing) and into_digest is sha256 of them; PackageBuilder::build, Package::sign_with_timestamp, Package::clear_signatures: the SHA-256 stored in the signature header is hex(sha256(ser(header))) of the header that ends up in the package.',
     ),
     'C10': dict(
-        level='proof', verus=['c10_sign', 'c02_verify_sig'],
+        level='proof', verus=['c10_sign', 'c02_verify_sig', 'c14_writers'],
         trusted_base=[A_TOOLS, A_EXTRACT, 'A-PGP: Signing::sign returns the signer output over exactly the bytes it is shown; Verifying is a function of bytes and signature; real-key semantics (verifies iff same key) and key-id reporting are functional correctness of the pgp crate: assumed / not covered',
                       'built_sig: the signature header is an (uninterpreted) function of the builder state'],
         assumptions=['R21: the TryInto<Timestamp> conversion at the sign API boundary is dropped (C20 subject)',
